@@ -2,6 +2,7 @@ import Cinco.Basic.Tree
 /-
   Hand-written models of `base64.b64encode`, `base64.b64decode` (non-strict: `binascii.a2b_base64`'s state
   machine — characters outside the alphabet are skipped, padding is counted, leftovers are an error),
+  `base64.b64decode(validate=True)` (strict: the full-match check on the alphabet and the padding, then the same machine),
   `bytes.hex` and `bytes.fromhex`.  Arithmetic is over `Nat` so that the sextet laws are linear (`omega`).
   Validated against CPython by the correspondence checks (trusted base).
 -/
@@ -49,6 +50,22 @@ def decodeGo (quad left pads : Nat) : Str → Option Bytes
 /-- `base64.b64decode(text)` for a `str` argument: non-ASCII text is a ValueError -/
 def decode (s : Str) : Option Bytes :=
   if s.all (fun c => c.toNat < 128) then decodeGo 0 0 0 s else none
+
+/-- a character of the base64 alphabet `A–Z a–z 0–9 + /` (the padding character `=` is not one) -/
+def inAlphabet (c : Char) : Bool :=
+  let n := c.toNat
+  (65 ≤ n && n ≤ 90) || (97 ≤ n && n ≤ 122) || (48 ≤ n && n ≤ 57) || n == 43 || n == 47
+
+/-- `re.fullmatch(b'[A-Za-z0-9+/]*={0,2}', s)`: alphabet characters, then at most two `=`, then nothing
+    (no trailing newline: `fullmatch`, not `match` with `$`). -/
+def strictShape (s : Str) : Bool :=
+  let pad := s.dropWhile inAlphabet
+  pad == [] || pad == ['='] || pad == ['=', '=']
+
+/-- `base64.b64decode(text, validate=True)` for a `str` argument: the text must fully match the shape above,
+    then the non-strict decoder runs on it (which still rejects wrong length / padding). -/
+def decodeStrict (s : Str) : Option Bytes :=
+  if strictShape s then decode s else none
 
 def hexChar (n : Nat) : Char := if n < 10 then Char.ofNat (48 + n) else Char.ofNat (87 + n)
 def hexVal (c : Char) : Option Nat :=
